@@ -201,6 +201,8 @@ def scenario(eng, case, front):
                 reply_kind[idx] = (kind, status)
                 delay = eng.int('fwd_delay', 0, 5)
                 await asyncio.sleep(delay / 1000.0)
+                # commands handed to the face while this one is still unanswered are outstanding together with it
+                state['max_out'] = max(state['max_out'], len(face.out) - idx)
                 try:
                     if rep == 'nack':
                         await app._receive(0x64, enc.make_network_nack(wire, status))
@@ -507,6 +509,8 @@ def cases(tier, seed):
     cs.append(('reg_v2', {'K': 3, 'ops': ['register', 'unregister', 'register'], 'kinds': [['ok'], ['ok'], ['ok']]},
                {'weight': 80, 'split_depth': 5}))
     cs.append(('reg_v1', {'K': 2, 'ops': ['register', 'register'], 'kinds': [['ok', 'silence'], ['ok']]},
+               {'weight': 60, 'split_depth': 4}))
+    cs.append(('reg_v1', {'K': 2, 'ops': ['register', 'unregister'], 'kinds': [['ok'], ['ok']]},
                {'weight': 60, 'split_depth': 4}))
     if not quick:
         cs.append(('reg_v1', {'K': 2, 'ops': ['register', 'unregister'], 'kinds': [['ok', 'silence'], ['ok', 'status']]},
